@@ -1,16 +1,231 @@
 /-
   PCV.Model.DrvDefault — driver requests of the model of the trait-default methods of
   `PolynomialCommitment` (`poly-commit/src/lib.rs`): op names start with "dflt.".
+
+  The generic model `PCV.TraitDefault` is instantiated with a LOGGING toy scheme (the harness runs the
+  library's default methods on the same toy, `props_default.rs::ToyPC`):
+  * state = (number of calls so far, call log, squeezed challenges still to come);
+  * `open` looks its outcome up in a script by call index (1 = answer, 4/5/9 = refuse), takes the next
+    challenge, logs (polynomial labels, state ids, commitment labels, commitment ids, point) and
+    returns the proof (call index, challenge);
+  * `check` looks its outcome up in a script by call index (0 = false, 1 = true exactly when the next
+    challenge equals the one in the proof, 6 = true, 4/5/9 = refuse) and logs (commitment labels,
+    commitment ids, point, values, proof tag, proof challenge, challenges-agree flag).
+  Replies carry `res` (1/0 or `[error code]`), the call log and the produced proofs / evaluations.
 -/
 import PCV.Model.Wire
 import PCV.Model.DrvUtil
+import PCV.Model.TraitDefault
 namespace PCV
 namespace DrvDefault
-open Driver
+open Driver TraitDefault
+
+variable {p : Nat}
+
+structure TPoly (p : Nat) where
+  label : List Nat
+  coeffs : List (Fp p)
+
+structure TComm where
+  label : List Nat
+  id : Nat
+
+structure TProof (p : Nat) where
+  tag : Nat
+  chal : Fp p
+
+structure TState (p : Nat) where
+  n : Nat
+  log : List Val
+  chals : List (Fp p)
+
+/-- `Ord for Fp`: by canonical representative -/
+def ltFp (a b : Fp p) : Bool := decide (a.v < b.v)
+
+def errCode : Err → Nat
+  | .missingPolynomial => 2
+  | .missingEvaluation => 3
+  | .incorrectInputLength => 4
+  | .invalidCommitment => 5
+  | .abort => 9
+  | _ => 99
+
+def scriptErr (code : Nat) : Err :=
+  if code = 4 then .incorrectInputLength else if code = 5 then .invalidCommitment else .abort
+
+def vLabels (ls : List (List Nat)) : Val := .l (ls.map vNats)
+
+def toyOpen (script : List Nat) (ts : List ((TPoly p × Nat) × TComm)) (z : Fp p) (s : TState p) :
+    Except Err (TProof p × TState p) :=
+  let code := script.getD s.n 1
+  if code ≠ 1 then .error (scriptErr code)
+  else
+    let c := s.chals.headD 0
+    let entry : Val := .l [vLabels (ts.map (·.1.1.label)), vNats (ts.map (·.1.2)),
+      vLabels (ts.map (·.2.label)), vNats (ts.map (·.2.id)), vFe z]
+    .ok (⟨s.n, c⟩, ⟨s.n + 1, s.log ++ [entry], s.chals.drop 1⟩)
+
+def toyCheck (script : List Nat) (cs : List TComm) (z : Fp p) (vs : List (Fp p)) (π : TProof p)
+    (s : TState p) : Except Err (Bool × TState p) :=
+  let code := script.getD s.n 1
+  if code ≠ 0 ∧ code ≠ 1 ∧ code ≠ 6 then .error (scriptErr code)
+  else
+    let c := s.chals.headD 0
+    let agree := decide (c = π.chal)
+    let entry : Val := .l [vLabels (cs.map (·.label)), vNats (cs.map (·.id)), vFe z, vFes vs,
+      .n π.tag, vFe π.chal, vBool agree]
+    let b := if code = 0 then false else if code = 6 then true else agree
+    .ok (b, ⟨s.n + 1, s.log ++ [entry], s.chals.drop 1⟩)
+
+def asLabels (v : Val) : R (List (List Nat)) := do let xs ← asList v; xs.mapM asNats
+
+/-- `plabels=[[..],..] pcoeffs=[[..],..]` -/
+def getPolys (r : Req) : R (List (TPoly p)) := do
+  let ls ← asLabels (← need r "plabels")
+  let cs ← asFess (p := p) (← need r "pcoeffs")
+  pure (List.zipWith (fun l c => ⟨l, c⟩) ls cs)
+
+/-- `clabels=[[..],..] cids=[..]` -/
+def getComms (r : Req) : R (List TComm) := do
+  let ls ← asLabels (← need r "clabels")
+  let ids ← asNats (← need r "cids")
+  pure (List.zipWith (fun l i => ⟨l, i⟩) ls ids)
+
+/-- a query `[label, point_label, point]` -/
+def asQuery (v : Val) : R (Query (Fp p)) := do
+  match ← asList v with
+  | [a, b, c] => do
+    let l ← asNats a
+    let pl ← asNats b
+    let z ← asFe (p := p) c
+    pure (l, (pl, z))
+  | _ => .error "expected-query"
+
+def getQueries (r : Req) (k : String) : R (List (Query (Fp p))) := do
+  let xs ← asList (← need r k); xs.mapM asQuery
+
+/-- an evaluation `[label, point, value]` -/
+def asEval (v : Val) : R ((Label × Fp p) × Fp p) := do
+  match ← asList v with
+  | [a, b, c] => do
+    let l ← asNats a
+    let z ← asFe (p := p) b
+    let x ← asFe (p := p) c
+    pure ((l, z), x)
+  | _ => .error "expected-evaluation"
+
+def getEvals (r : Req) (k : String) : R (List ((Label × Fp p) × Fp p)) := do
+  let xs ← asList (← need r k); xs.mapM asEval
+
+/-- a proof `[tag, challenge]` -/
+def asProof (v : Val) : R (TProof p) := do
+  match ← asList v with
+  | [a, b] => do
+    let t ← asNat a
+    let c ← asFe (p := p) b
+    pure ⟨t, c⟩
+  | _ => .error "expected-proof"
+
+def getProofs (r : Req) : R (List (TProof p)) := do
+  let xs ← asList (← need r "proofs"); xs.mapM asProof
+
+/-- a term `[coeff, none | some(label)]` -/
+def asTerm (v : Val) : R (Fp p × LC.LCTerm) := do
+  match ← asList v with
+  | [a, b] => do
+    let c ← asFe (p := p) a
+    match ← asOpt b with
+    | none => pure (c, .one)
+    | some l => do let l ← asNats l; pure (c, .poly l)
+  | _ => .error "expected-term"
+
+/-- an equation `[label, [term,..]]` -/
+def asLC (v : Val) : R (LC.LinComb (Fp p)) := do
+  match ← asList v with
+  | [a, b] => do
+    let l ← asNats a
+    let ts ← asList b
+    let ts ← ts.mapM asTerm
+    pure ⟨l, ts⟩
+  | _ => .error "expected-equation"
+
+def getLCs (r : Req) : R (List (LC.LinComb (Fp p))) := do
+  let xs ← asList (← need r "lcs"); xs.mapM asLC
+
+def vQuery (q : Query (Fp p)) : Val := .l [vNats q.1, vNats q.2.1, vFe q.2.2]
+def vProofs (πs : List (TProof p)) : Val := .l (πs.map fun π => .l [.n π.tag, vFe π.chal])
+def vOptFes (x : Option (List (Fp p))) : Val := match x with | none => .none | some l => .some (vFes l)
+def vRes (b : Bool) : Val := vBool b
+def vErr (e : Err) : Val := .l [.n (errCode e)]
 
 def handle (p : Nat) (r : Req) : Option (R String) :=
   if !r.op.startsWith "dflt." then none else some do
   match r.op with
+  | "dflt.query_set" =>
+    -- the iteration order of the `BTreeSet` holding these queries
+    let qs ← getQueries (p := p) r "qs"
+    pure <| okReply [("set", .l ((querySet ltFp qs).map vQuery))]
+  | "dflt.groups" =>
+    -- `query_to_labels_map`: `[point_label, point, [labels]]` in map order
+    let qs ← getQueries (p := p) r "qs"
+    pure <| okReply [("groups", .l ((groups (querySet ltFp qs)).map fun g =>
+      .l [vNats g.1, vFe g.2.1, vLabels g.2.2]))]
+  | "dflt.batch_open" =>
+    let polys ← getPolys (p := p) r
+    let sts ← asNats (← need r "sts")
+    let comms ← getComms r
+    let qs ← getQueries (p := p) r "qs"
+    let script ← asNats (← need r "script")
+    let chals ← asFes (p := p) (← need r "chals")
+    match batchOpen ltFp (fun (x : TPoly p) => x.label) (toyOpen script) polys sts comms qs
+        (⟨0, [], chals⟩ : TState p) with
+    | .error e => pure <| okReply [("res", vErr e)]
+    | .ok (πs, s) => pure <| okReply [("res", .n 1), ("proofs", vProofs πs), ("log", .l s.log)]
+  | "dflt.batch_check" =>
+    let comms ← getComms r
+    let qs ← getQueries (p := p) r "qs"
+    let evals ← getEvals (p := p) r "evals"
+    let proofs ← getProofs (p := p) r
+    let script ← asNats (← need r "script")
+    let chals ← asFes (p := p) (← need r "chals")
+    match batchCheck ltFp (fun (c : TComm) => c.label) (toyCheck script) comms qs evals proofs
+        (⟨0, [], chals⟩ : TState p) with
+    | .error e => pure <| okReply [("res", vErr e)]
+    | .ok (b, s) => pure <| okReply [("res", vRes b), ("log", .l s.log)]
+  | "dflt.open_combinations" =>
+    let lcs ← getLCs (p := p) r
+    let polys ← getPolys (p := p) r
+    let sts ← asNats (← need r "sts")
+    let comms ← getComms r
+    let qs ← getQueries (p := p) r "qs"
+    let script ← asNats (← need r "script")
+    let chals ← asFes (p := p) (← need r "chals")
+    match openCombinations ltFp (fun (x : TPoly p) => x.label) (fun (x : TPoly p) z => evalPoly x.coeffs z)
+        (toyOpen script) lcs polys sts comms qs (⟨0, [], chals⟩ : TState p) with
+    | .error e => pure <| okReply [("res", vErr e)]
+    | .ok ((πs, evs), s) =>
+      pure <| okReply [("res", .n 1), ("proofs", vProofs πs), ("evals", vOptFes evs), ("log", .l s.log)]
+  | "dflt.check_combinations" =>
+    let lcs ← getLCs (p := p) r
+    let comms ← getComms r
+    let qs ← getQueries (p := p) r "qs"
+    let eqEvals ← getEvals (p := p) r "evals"
+    let proofs ← getProofs (p := p) r
+    let pevs ← asOpt (← need r "pevals")
+    let pevs ← match pevs with
+      | none => pure none
+      | some v => do let l ← asFes (p := p) v; pure (some l)
+    let script ← asNats (← need r "script")
+    let chals ← asFes (p := p) (← need r "chals")
+    match checkCombinations ltFp (fun (c : TComm) => c.label) (toyCheck script) lcs comms qs eqEvals
+        proofs pevs (⟨0, [], chals⟩ : TState p) with
+    | .error e => pure <| okReply [("res", vErr e)]
+    | .ok (b, s) => pure <| okReply [("res", vRes b), ("log", .l s.log)]
+  | "dflt.poly_query_set" =>
+    -- `lc_query_set_to_poly_query_set` as `open_combinations` calls it
+    let lcs ← getLCs (p := p) r
+    let qs ← getQueries (p := p) r "qs"
+    pure <| okReply [("set", .l ((lcToPolyQuerySet ltFp lcs (querySet ltFp qs)).map vQuery))]
   | _ => .error "unknown-op"
 
 end DrvDefault
